@@ -41,8 +41,52 @@ def _replay(x, flag, shape_top, nested):
     return x - np.float32(0.5)
 
 
+def _opset_history(order):
+    """One process, the same small net traced at several opset versions between which the operators' signatures changed
+    (axes: attribute before 13 / 18, input afterwards).  Each build must be a valid model of ITS opset that computes the
+    NumPy replay, whatever was traced before (session 6, seeded C18-m12: a signature cache keyed without the version)."""
+    import onnx
+    import onnx_ir as ir
+
+    from onnxscript._internal import builder
+
+    from . import core
+
+    fails = []
+    xv = np.arange(6, dtype=np.float32).reshape(2, 3) - 2
+    ref = xv.sum(axis=1) + xv.mean(axis=1)
+    for v in order:
+        try:
+            graph = ir.Graph(name=f"g{v}", inputs=[], outputs=[], nodes=[], opset_imports={"": v})
+            gb = builder.GraphBuilder(graph)
+            op = gb.op
+            x = gb.input("x", dtype=ir.DataType.FLOAT, shape=[2, 3])
+            u = op.Unsqueeze(x, [0]) if v >= 13 else op.Unsqueeze(x, axes=[0])
+            s = op.Squeeze(u, [0]) if v >= 13 else op.Squeeze(u, axes=[0])
+            r = op.ReduceSum(s, [1], keepdims=0) if v >= 13 else op.ReduceSum(s, axes=[1], keepdims=0)
+            m = op.ReduceMean(s, [1], keepdims=0) if v >= 18 else op.ReduceMean(s, axes=[1], keepdims=0)
+            y = op.Add(r, m)
+            y.type = ir.TensorType(ir.DataType.FLOAT)
+            y.shape = ir.Shape([2])
+            gb.add_output(y, "y")
+            proto = ir.to_proto(ir.Model(graph, ir_version=8))
+        except Exception as e:  # noqa: BLE001
+            fails.append(f"opset {v} (after {order[:order.index(v)]}): building raised {type(e).__name__}: {str(e)[:200]}")
+            continue
+        try:
+            onnx.checker.check_model(proto, full_check=True)
+            got = core.ort_session(proto).run(None, {"x": xv})[0]
+            if not np.array_equal(got, ref):
+                fails.append(f"opset {v} (after {order[:order.index(v)]}): graph gives {got.tolist()}, NumPy replay gives {ref.tolist()}")
+        except Exception as e:  # noqa: BLE001
+            fails.append(f"opset {v} (after {order[:order.index(v)]}): the built model is not a valid model of its opset: "
+                         f"{' '.join(str(e).split())[:260]}")
+    return fails
+
+
 def cases():
-    out = []
+    out = [{"name": "same_net_at_opsets_" + "_".join(map(str, o)), "mode": "opset_history", "order": o}
+           for o in ([11, 18, 13, 11], [21, 12])]
     for mode in ("call", "call_inline"):
         for shape_top in (False, True):
             for nested in (False, True):
@@ -59,6 +103,8 @@ def run_case(c):
 
     from . import core
 
+    if c["mode"] == "opset_history":
+        return _opset_history(c["order"])
     fails = []
     try:
         fn = _make_function(f"F_{c['mode']}_{int(c['top'])}_{int(c['nested'])}", c["top"], c["nested"])
